@@ -21,6 +21,11 @@ func init() {
 	})
 }
 
+var c07Table = map[string]string{
+	"rt/middleware/header.expectTokenOrQuoted: make((len(s[1:])-1))[φj]":  "p has len(s)-1 bytes; j starts as copy(p, s[:i]) = i (the backslash position) and is incremented at most once per later input byte i' in (i, len(s)), so at a write j <= i'-1 < len(s)-1",
+	"rt/middleware/header.expectTokenOrQuoted: make((len(s[1:])-1))[:φj]": "same counting argument: j <= len(s)-1 = len(p) when the closing quote is found",
+}
+
 // factLessConst: the edge establishes v < K for some constant K (v recognised by m).
 func factLessConst(m VPred) EdgePred {
 	return func(cond ssa.Value, branch bool) bool {
@@ -169,6 +174,15 @@ func runC07(c *Ctx) {
 			c.obI("R07.6", ci, "canonical-header-name", ok && http.CanonicalHeaderKey(k) == k, "ParseAccept indexes the header map directly, so it is only given constant header names in canonical form", "key "+describe(ci.Common().Args[1]))
 		}
 	}
+
+	// R07.3 parsing never panics
+	var bf []*ssa.Function
+	for _, n := range []string{"ParseAccept", "ParseAccept2", "ParseList", "ParseValueAndParams", "parseValueAndParams", "expectQuality", "expectToken", "expectTokenSlash", "skipSpace", "expectTokenOrQuoted"} {
+		bf = append(bf, p.Fn("rt/middleware/header."+n))
+	}
+	bf = append(bf, f, fe, p.Fn("rt/middleware.normalizeOffer"), p.Fn("rt/middleware.normalizeOffers"))
+	checkBounds(c, "R07.3", bf, c07Table)
+	c.min("R07.3", 30)
 
 	// R07.4 accumulators
 	eq := p.Fn("rt/middleware/header.expectQuality")
